@@ -960,4 +960,41 @@ example : validateChunk 4 64 true (entriesOf 4 (wholeRecords 4 [64,97,10,65,10,4
     isBlank ((norm [64,97,10,65,10,43,10,73,10,64,98,10]).drop (wholeRecords 4 [64,97,10,65,10,43,10,73,10,64,98,10]).length) = false := by
   decide
 
+/-! ### the reader's own end-of-file test (what the driver runs) -/
+
+/-- **C15.readValidateR_eq** — the end-of-file test as the reader performs it (on the pending chunks when it gives up,
+or on the final chunk behind its buffer; `readValidateR`, the function the correspondence runs against the code) decides
+exactly as the test on the bytes never delivered (`readValidateT`), for every file, chunk size and mode. All `…T…`
+theorems above therefore speak about `readValidateR`. -/
+theorem readValidateR_eq (n : Nat) (hn : 0 < n) (marker : Nat) (cp : Bool) (mode : Mode) (file : Bytes) (k : Nat) (hk : 0 < k) :
+    readValidateR n marker cp mode file k = readValidateT n marker cp mode file k := by
+  unfold readValidateR readValidateT leftoverOf
+  rw [readAllRest_blank_iff n hn mode file k hk]
+
+/-- **C15.readValidateR_any_file** — `readValidateT_any_file` for the reader-level function -/
+theorem readValidateR_any_file (n : Nat) (hn : 0 < n) (marker : Nat) (cp : Bool) (hcp : cp = true → 2 < n)
+    (mode : Mode) (file : Bytes) (k : Nat) (hk : 0 < k) :
+    readValidateR n marker cp mode file k =
+      match validateChunk n marker cp (entriesOf n (wholeRecords n file)) with
+      | some l => some l
+      | none =>
+        if isBlank ((norm file).drop (wholeRecords n file).length) then none
+        else some (countNL (norm file) - countNL (norm file) % n) := by
+  rw [readValidateR_eq n hn marker cp mode file k hk]
+  exact readValidateT_any_file n hn marker cp hcp mode file k hk
+
+/-- **C15.readValidateR_chunk_size_independent** — every file, any two chunk sizes and modes: the same outcome -/
+theorem readValidateR_chunk_size_independent (n : Nat) (hn : 0 < n) (marker : Nat) (cp : Bool) (hcp : cp = true → 2 < n)
+    (file : Bytes) (m₁ m₂ : Mode) (k₁ k₂ : Nat) (h₁ : 0 < k₁) (h₂ : 0 < k₂) :
+    readValidateR n marker cp m₁ file k₁ = readValidateR n marker cp m₂ file k₂ := by
+  rw [readValidateR_eq n hn marker cp m₁ file k₁ h₁, readValidateR_eq n hn marker cp m₂ file k₂ h₂]
+  exact chunk_size_independent_any_file n hn marker cp hcp file m₁ m₂ k₁ k₂ h₁ h₂
+
+/-- the two sites are both reached: `@a/A/+/I/@b`, seek mode: chunk size 9 ends at site 1 (pending chunks), chunk size 12
+at site 2 (behind the final buffer); both report line 4 -/
+example : readAllRest (Fmt.kLine 4) .seek [64,97,10,65,10,43,10,73,10,64,98,10] 9 = [64,98,10] ∧
+    readAllRest (Fmt.kLine 4) .seek [64,97,10,65,10,43,10,73,10,64,98,10] 12 = [64,98,10] ∧
+    readValidateR 4 64 true .seek [64,97,10,65,10,43,10,73,10,64,98,10] 9 = some 4 ∧
+    readValidateR 4 64 true .seek [64,97,10,65,10,43,10,73,10,64,98,10] 12 = some 4 := by decide
+
 end C15
